@@ -82,6 +82,9 @@ Theorem C15_src_try_reflink_table : forall m, m < 3 ->
   (forall e, rl_code (snd (try_reflink (mode_of_code m) (ClErr e))) = if x_try_reflink_issues_clone m then 2 else 0).
 Proof. exact x_try_reflink_ok. Qed.
 
+Theorem C15_src_clone_attempt_first : x_copy_file_steps = [4; 98; 30; 31; 32]%N /\ x_queue_file_blocks_steps = [40; 4; 98; 41; 97; 30; 42; 43; 44; 45; 45]%N.
+Proof. split; [exact x_copy_file_steps_ok|exact x_queue_file_blocks_steps_ok]. Qed.
+
 Print Assumptions C15_never_no_clone.
 Print Assumptions C15_always_ok_iff_cloned.
 Print Assumptions C15_always_unsupported_fails.
@@ -91,3 +94,4 @@ Print Assumptions C15_hard_error_fatal.
 Print Assumptions C15_clone_unsupported_errnos.
 Print Assumptions C15_src_reflink_unsupported_errnos.
 Print Assumptions C15_src_try_reflink_table.
+Print Assumptions C15_src_clone_attempt_first.
